@@ -10,7 +10,7 @@ def lifecycle(ch, ctx, did, **kw):
     return history_body("C02", lambda: [OracleTracker(), C02Truth()], ch, ctx, did, **kw)
 
 
-QUICK = ["D02", "D03", "D04", "D07", "D08", "D12"]
+QUICK = ["D02", "D03", "D04", "D06", "D07", "D08", "D12"]
 
 
 def obligations(tier):
